@@ -208,6 +208,16 @@ def run(tier, seed, out):
     kit.log(f"C07: TLC generated {len(cases)} token strings ({gen.wall:.1f}s)")
     recs = kit.drive("harness.c07", "drive_case", cases, {"envs": envs[0]}, chunk=200)
     out.evaluations += sum(2 + len(r["py"]) for r in recs)
+
+    def corrupt(r):      # the parser's tree replaced by "tree + 1"
+        if r["pp"].get("r") == "ok" and not r["syn"] and r["toks"][1:2] == ["+"] and len(r["toks"]) == 5 \
+                and r["toks"][3] in ("+", "*", "-"):
+            r["pp"]["e"] = {"t": "Sum", "c": [r["pp"]["e"], {"t": "Const", "v": {"k": "int", "n": 1, "d": 1}}]}
+            return r
+        return None
+    out.extra["corrupted_records_rejected"] = kit.corruption_control(
+        "C07_Judge", "C07_Judge", recs, corrupt, wd,
+        flagged=lambda v: "p" in v and v["p"]["v"] not in ("OK", "SKIP"))
     judge(out, recs, wd)
     for r in recs:
         out.note_case(r["toks"], nontrivial=len(r["toks"]) > 1)
